@@ -1123,7 +1123,7 @@ func (x *reasm) c01r6sub() {
 func init() {
 	props["C03"] = propC03
 	propMeta["C03"] = PropMeta{
-		Explanation: "Loss accounting decided structurally: every subtraction involving the last delivered sequence is guarded by a comparison that relates both operands (a one-sided guard does not count), lastSeq is never compared with the constant 0 as an 'unset' sentinel (0 is a reachable sequence number), EventsLost is invoked only under lost > 0 with the count returned by the same CleanUp/Clear, the only definitions of lost are 0 and lost + <guarded difference>, and the loss computation of Clear and CleanUp are the same event sequence.",
+		Explanation: "Loss accounting decided structurally: every subtraction involving the last delivered sequence is guarded by a comparison that relates both operands (a one-sided guard does not count), lastSeq is never compared with the constant 0 as an 'unset' sentinel (0 is a reachable sequence number), EventsLost is invoked only under lost > 0 with the count returned by the same CleanUp/Clear, the only definitions of lost are 0 and lost + <guarded difference>, and the loss computation of Clear and CleanUp are the same event sequence. lastSeq only moves forward (every store is the first delivery or under a strict order test against the old value), and the list the head is taken from is re-sorted on every insert.",
 		NotDecided:  "That the reported sum equals the number of skipped sequence numbers over all histories (arithmetic over histories), and that the guard chosen is the right roll-over comparison (C02.R1-R3 pin the comparator when it is reused).",
 		Assumptions: []string{"go/ssa models the source faithfully"},
 	}
@@ -2090,7 +2090,7 @@ func (x *reasm) closeOnce() {
 func init() {
 	props["C11"] = propC11
 	propMeta["C11"] = PropMeta{
-		Explanation: "Lock discipline decided by a lockset dataflow with lock classes and caller inference: every access to a field of eventList/event (all fields except the mutex and the construct-only ones, so new fields are guarded by default) happens with eventList's mutex held, except in the constructor and in callback's loads of detached events; Reassembler.closed is touched only through sync/atomic; no Stream method is invoked and no eventList lock is re-acquired while the lock is held (single lock class, so no lock-order cycle), every call made under the lock is to a reviewed callee; exactly one Close wins the CompareAndSwap; construct-only fields have the constructor as their only writer.",
+		Explanation: "Lock discipline decided by a lockset dataflow with lock classes and caller inference: every access to a field of eventList/event (all fields except the mutex and the construct-only ones, so new fields are guarded by default) happens with eventList's mutex held, except in the constructor and in callback's loads of detached events; Reassembler.closed is touched only through sync/atomic; no Stream method is invoked and no eventList lock is re-acquired while the lock is held (single lock class, so no lock-order cycle), every call made under the lock is to a reviewed callee; exactly one Close wins the CompareAndSwap; construct-only fields have the constructor as their only writer. No Stream invoke is reachable from a caller that holds any lock (read locks included) at its call site; the conservation conditions of C01 (ownership of events/seqs, one delivery per eviction, evictions through remove()) are stated here too.",
 		NotDecided:  "The delivered-exactly-once outcome over all interleavings (follows from the lock discipline plus C01 only informally); no schedule is enumerated and the race detector is not run. The yield hook suggested by the anchor is not added: it serves a dynamic scheduler.",
 		Assumptions: []string{"sync.Mutex and sync/atomic semantics", "one eventList per Reassembler (checked: list is written only by NewReassembler)"},
 	}
